@@ -685,6 +685,8 @@ def install_builtins(I):
                 I.raise_py("ValueError", "invalid literal for int()")
         if isinstance(x, SAtom):
             raise Unsupported("int() of symbolic string")
+        if getattr(getattr(x, "cls", None), "name", None) == "Parameter" and "value" in getattr(x, "attrs", {}):
+            return b_int(I, x.attrs["value"])      # lmfit.Parameter.__int__ is int(self.value)
         raise Unsupported(f"int({x!r})")
     bi["int"] = B("int", b_int)
 
@@ -1067,6 +1069,10 @@ def install_numpy(I):
         return f
     L["numpy.min"] = np_min("min")
     L["numpy.max"] = np_min("max")
+    def np_ptp(I, a, **k):
+        hi, lo = _reduce_minmax(I, a, "max"), _reduce_minmax(I, a, "min")
+        return SReal(hi.term - lo.term)
+    L["numpy.ptp"] = np_ptp
     L["ndarray.min"] = lambda I, self: _reduce_minmax(I, self, "min")
     L["ndarray.max"] = lambda I, self: _reduce_minmax(I, self, "max")
     L["numpy.sum"] = lambda I, a, **k: _reduce_sum(I, a)
